@@ -34,15 +34,16 @@
 using namespace SimTK;
 
 static const int NST = Stage::NValid;
-struct MCE { int dep, comp, alloc; long long stamp; bool flag, fresh; };
+struct MCE { int dep, comp, alloc; long long stamp; bool flag, fresh; long long vv = 1; };
 struct MDV { int inv, alloc; };
 struct MSub { int stage = 0; long long ver[16]; std::vector<MCE> ce; std::vector<MDV> dv; MSub() { for (int i = 0; i < 16; i++) ver[i] = 1; } };
 struct Model { int sys = 0; long long sysver[16]; long long qv = 1, uv = 1, zv = 1; std::vector<MSub> sub; int nq = 0, nu = 0, nz = 0;
                Model() { for (int i = 0; i < 16; i++) sysver[i] = 1; } };
 
 static std::string fail;
+static bool lenient_copy_versions = false;   // copywitness: skip the version rule so that the OBSERVABLE stale read shows
 static std::ostringstream trace_;
-#define CHECK(cond, what) do { if (!(cond) && fail.empty()) { std::ostringstream o; o << what; fail = o.str(); } } while (0)
+#define CHECK(cond, what) do { if (!(cond) && fail.empty()) { std::ostringstream chk_os_; chk_os_ << what; fail = chk_os_.str(); } } while (0)
 
 static int dig(char c) { return c == 'A' ? 10 : c - '0'; }
 
@@ -84,6 +85,7 @@ static void compare(const State& st, const Model& m, const char* after) {
             bool real = st.isCacheValueRealized(sx, CacheEntryIndex(k));
             bool rule = ms.stage >= e.comp || (ms.stage >= e.dep && e.stamp == ms.ver[e.dep] && e.flag);
             CHECK(real == rule, after << ": cache entry (" << s << "," << k << ") dependsOn " << e.dep << " computedBy " << e.comp << " reads " << real << ", documented rule gives " << rule);
+            CHECK(im.getSubsystem(sx).cacheInfo[k].getValueVersion() == e.vv, after << ": cache entry (" << s << "," << k << ") value version " << im.getSubsystem(sx).cacheInfo[k].getValueVersion() << " model " << e.vv << " [value versions change whenever the value may have changed]");
             CHECK(!real || ms.stage >= e.comp || e.fresh, after << ": HISTORY: cache entry (" << s << "," << k << ") dependsOn " << e.dep << " reads VALID at stage " << ms.stage
                   << " but was not marked valid after the last change to its depends-on stage (stale value visible)");
         }
@@ -115,14 +117,14 @@ struct Run {
             int s = dig(t[1]), d = dig(t[2]), cb = dig(t[3]);
             if (s >= (int)m.sub.size() || m.sub[s].stage >= Stage::Instance || d < 1 || d > 9 || cb < d) return false;
             st.allocateCacheEntry(SubsystemIndex(s), Stage(d), Stage(cb), new Value<Real>(0));
-            m.sub[s].ce.push_back(MCE{d, cb, m.sub[s].stage + 1, 0, true, false});
+            { MCE e; e.dep = d; e.comp = cb; e.alloc = m.sub[s].stage + 1; e.stamp = 0; e.flag = true; e.fresh = false; m.sub[s].ce.push_back(e); }
             return true;
         }
         if (c == 'v') {
             int s = dig(t[1]), g = dig(t[2]);
             if (s >= (int)m.sub.size() || g < 1 || g > 9) return false;
             int maxok = (g <= Stage::Model) ? Stage::Empty : Stage::Topology;
-            if (m.sub[s].stage > maxok) return false;
+            if (m.sub[s].stage > maxok || g <= m.sub[s].stage + 1) return false;   // DiscreteVarInfo::isReasonable: invalidated > allocation stage
             st.allocateDiscreteVariable(SubsystemIndex(s), Stage(g), new Value<Real>(0));
             m.sub[s].dv.push_back(MDV{g, m.sub[s].stage + 1});
             return true;
@@ -138,7 +140,7 @@ struct Run {
                 e.stamp = m.sub[s].ver[e.dep]; e.flag = true; e.fresh = true;
             } else {
                 st.markCacheValueNotRealized(SubsystemIndex(s), CacheEntryIndex(k));
-                e.stamp = 0; e.flag = false; e.fresh = false;
+                e.stamp = 0; e.flag = false; e.fresh = false; e.vv++;
             }
             return true;
         }
@@ -207,7 +209,7 @@ struct Run {
                 const StageVersion* v = ci.getSubsystemStageVersions(s);
                 for (int i = 0; i < NST; i++) {
                     if (i <= d.stage) CHECK(v[i] == o.ver[i], "copy: subsystem " << s << " version of copied stage " << i << " not kept (" << v[i] << " vs " << o.ver[i] << ")");
-                    else CHECK(v[i] > o.ver[i], "copy: subsystem " << s << " version of LATER stage " << i << " is " << v[i] << ", not greater than the source's " << o.ver[i]
+                    else if (!lenient_copy_versions) CHECK(v[i] > o.ver[i], "copy: subsystem " << s << " version of LATER stage " << i << " is " << v[i] << ", not greater than the source's " << o.ver[i]
                                << " (a stamp recorded in the source can look valid in the copy)");
                     d.ver[i] = v[i];
                 }
@@ -273,7 +275,9 @@ int main(int argc, char** argv) {
         // F5: entry marked at version 1 of Position, q changed (source: stale, invalid), copy, re-realize
         bool a = runScript("S1 aq c05A R5 m00 Uq C R5", true);
         bool b = runScript("S1 aq c05A R5 m00 Uq = R5", true);
-        return (a || b) ? 1 : 0;
+        lenient_copy_versions = true;            // now through the public API only: isCacheValueRealized() of the copy
+        bool c = runScript("S1 aq c05A R5 m00 Uq C R5", true);
+        return (a || b || c) ? 1 : 0;
     }
     if (mode == "search" && argc > 4) {
         std::mt19937 g((unsigned)std::atol(argv[2])); int n = std::atoi(argv[3]), len = std::atoi(argv[4]);
